@@ -11,13 +11,14 @@ Section P.
   Lemma ok_passthrough st pred inner backup req r :
     inner req = inl r ->
     call st pred inner backup req =
-      {| inner_calls := [req]; backup_calls := []; out := inl r |}.
+      {| inner_calls := [req]; backup_calls := []; fn_log := [EInner req]; out := inl r |}.
   Proof. intros H. unfold call. rewrite H. reflexivity. Qed.
 
   Lemma predicate_gate st pred inner backup req e :
     inner req = inr e -> handles pred e = false ->
     call st pred inner backup req =
-      {| inner_calls := [req]; backup_calls := []; out := inr (Inner e) |}.
+      {| inner_calls := [req]; backup_calls := []; fn_log := EInner req :: pred_events pred e;
+         out := inr (Inner e) |}.
   Proof.
     intros H Hp. unfold call. rewrite H. fold (handles pred e). rewrite Hp.
     reflexivity.
@@ -37,15 +38,45 @@ Section P.
   Definition spec_backup st req : list Req :=
     match st with SService => [req] | _ => [] end.
 
+  (* what is invoked, in order: the inner service, the predicate (if any), then the one closure
+     (or the backup service) of the configured strategy *)
+  Definition spec_log st pred req (e : Err) : list (event Req Err) :=
+    EInner req :: pred_events pred e ++
+    match st with
+    | SValue _ => []
+    | SValueFn _ => [EValueFn]
+    | SFromError _ => [EFromError e]
+    | SFromRequestError _ => [EFromReqErr req e]
+    | SService => [EBackup req]
+    | SException _ => [EException e]
+    end.
+
   Lemma strategy_exact st pred inner backup req e :
     inner req = inr e -> handles pred e = true ->
     call st pred inner backup req =
-      {| inner_calls := [req]; backup_calls := spec_backup st req;
+      {| inner_calls := [req]; backup_calls := spec_backup st req; fn_log := spec_log st pred req e;
          out := spec_out st backup req e |}.
   Proof.
     intros H Hp. unfold call. rewrite H. fold (handles pred e). rewrite Hp.
-    cbn [negb]. destruct st; cbn [spec_out spec_backup]; try reflexivity.
+    cbn [negb]. unfold spec_log, spec_out, spec_backup. destruct st; cbn [app]; rewrite ?app_nil_r; try reflexivity.
     destruct (backup req); reflexivity.
+  Qed.
+
+  (* the specification, strategy by strategy, readable without [spec_out] *)
+  Lemma strategy_equations pred inner backup req e :
+    inner req = inr e -> handles pred e = true ->
+    (forall v, out (call (SValue v) pred inner backup req) = inl v) /\
+    (forall f, out (call (SValueFn f) pred inner backup req) = inl (f tt)) /\
+    (forall f, out (call (SFromError f) pred inner backup req) = inl (f e)) /\
+    (forall f, out (call (SFromRequestError f) pred inner backup req) = inl (f req e)) /\
+    (forall r, backup req = inl r -> out (call SService pred inner backup req) = inl r) /\
+    (forall be, backup req = inr be ->
+                out (call SService pred inner backup req) = inr (FallbackFailed be)) /\
+    (forall f, out (call (SException f) pred inner backup req) = inr (Inner (f e))).
+  Proof.
+    intros H Hp.
+    repeat split; intros; rewrite (strategy_exact _ _ _ _ _ _ H Hp); cbn [out spec_out];
+      try reflexivity; rewrite H0; reflexivity.
   Qed.
 
   Lemma inner_called_exactly_once st pred inner backup req :
@@ -74,12 +105,372 @@ Section P.
     out (call st pred inner backup req) = inl r /\
     backup_calls (call st pred inner backup req) = [].
   Proof. intros H. rewrite (ok_passthrough _ _ _ _ _ _ H). split; reflexivity. Qed.
+
+  (* a success invokes nothing but the inner service: no predicate, no strategy closure, no backup *)
+  Lemma success_invokes_nothing st pred inner backup req r :
+    inner req = inl r -> fn_log (call st pred inner backup req) = [EInner req].
+  Proof. intros H. rewrite (ok_passthrough _ _ _ _ _ _ H). reflexivity. Qed.
+
+  (* whatever happens, the first thing invoked is the inner service with the original request;
+     nothing of the fallback runs before it *)
+  Lemma inner_invoked_first st pred inner backup req :
+    exists rest, fn_log (call st pred inner backup req) = EInner req :: rest.
+  Proof.
+    unfold call. destruct (inner req) as [r|e]; [eexists; reflexivity|].
+    destruct (negb _); [eexists; reflexivity|].
+    destruct st; try (eexists; reflexivity). destruct (backup req); eexists; reflexivity.
+  Qed.
+
+  (* on an error the predicate (if there is one) is evaluated exactly once, on that error, right
+     after the inner call; what follows contains no predicate evaluation and no inner call *)
+  Lemma predicate_evaluated_once st pred inner backup req e :
+    inner req = inr e ->
+    exists rest, fn_log (call st pred inner backup req) = EInner req :: pred_events pred e ++ rest /\
+                 (forall x, ~ In (EPred x) rest) /\ (forall x, ~ In (EInner x) rest) /\
+                 (handles pred e = false -> rest = []).
+  Proof.
+    intros H. destruct (handles pred e) eqn:Hp.
+    - rewrite (strategy_exact _ _ _ _ _ _ H Hp). cbn [fn_log spec_log].
+      eexists. split; [reflexivity|].
+      destruct st; cbn; repeat split; intros; try discriminate; intuition discriminate.
+    - rewrite (predicate_gate _ _ _ _ _ _ H Hp). cbn [fn_log]. exists [].
+      rewrite app_nil_r. repeat split; intros; try reflexivity; intros [].
+  Qed.
+
+  (* ================= the step machine ================= *)
+  Definition of_sum (x : Res + Err) : outcome Res Err :=
+    match x with inl r => OOk r | inr e => OErr e end.
+
+  Lemma nth_error_upd_same {A} k (f : A -> A) (l : list A) c :
+    nth_error l k = Some c -> nth_error (upd k f l) k = Some (f c).
+  Proof.
+    revert k. induction l as [|x t IH]; intros [|k]; cbn; try discriminate.
+    - intros H. injection H as ->. reflexivity.
+    - apply IH.
+  Qed.
+
+  Lemma nth_error_upd_other {A} k k' (f : A -> A) (l : list A) :
+    k <> k' -> nth_error (upd k f l) k' = nth_error l k'.
+  Proof.
+    revert k k'. induction l as [|x t IH]; intros [|k] [|k'] H; cbn; try reflexivity; try congruence.
+    apply IH. congruence.
+  Qed.
+
+  Lemma Forall_upd {A} (P : A -> Prop) k (f : A -> A) (l : list A) :
+    Forall P l -> (forall c, nth_error l k = Some c -> P c -> P (f c)) -> Forall P (upd k f l).
+  Proof.
+    revert k. induction l as [|x t IH]; intros [|k] H Hf; cbn; inversion H; subst; constructor; auto.
+  Qed.
+
+  Section Machine.
+    Context (st : strategy Req Res Err) (pred : option (Err -> bool)).
+
+    (* per call: what has been invoked so far and what was delivered, phase by phase *)
+    Definition cinv (c : callst Req Res Err) : Prop :=
+      let req := c_req c in
+      match c_phase c with
+      | PCreated => c_log c = [] /\ c_inner c = None /\ c_backup c = None
+      | PWaitInner => c_log c = [EInner req] /\ c_inner c = None /\ c_backup c = None
+      | PInnerReady o => c_log c = [EInner req] /\ c_inner c = Some o /\ c_backup c = None
+      | PWaitBackup =>
+          exists e, c_inner c = Some (OErr e) /\ handles pred e = true /\ st = SService /\
+                    c_backup c = None /\ c_log c = EInner req :: pred_events pred e ++ [EBackup req]
+      | PBackupReady o =>
+          exists e, c_inner c = Some (OErr e) /\ handles pred e = true /\ st = SService /\
+                    c_backup c = Some o /\ c_log c = EInner req :: pred_events pred e ++ [EBackup req]
+      | PDone r =>
+          (exists x, c_inner c = Some (of_sum x)) /\
+          forall inner backup,
+            c_inner c = Some (of_sum (inner req)) ->
+            (forall o, c_backup c = Some o -> o = of_sum (backup req)) ->
+            r = out (call st pred inner backup req) /\ c_log c = fn_log (call st pred inner backup req)
+      | PPanicked | PDropped => True
+      end.
+
+    Lemma of_sum_ok x r : OOk r = of_sum x -> x = inl r.
+    Proof. destruct x; cbn; congruence. Qed.
+    Lemma of_sum_err x e : OErr e = of_sum x -> x = inr e.
+    Proof. destruct x; cbn; congruence. Qed.
+
+    Lemma poll_preserves c :
+      cinv c -> cinv (set_phase (fst (poll_call st pred c)) (snd (poll_call st pred c)) c).
+    Proof.
+      unfold cinv, poll_call, set_phase. destruct c as [req ph ci cb lg]. cbn [c_req c_phase c_inner c_backup c_log].
+      destruct ph as [| |o| |o|r| |]; cbn [fst snd c_req c_phase c_inner c_backup c_log].
+      - intros (-> & -> & ->). repeat split.
+      - intros (-> & -> & ->). repeat split.
+      - intros (-> & -> & ->). destruct o as [r|e|]; cbn [fst snd c_req c_phase c_inner c_backup c_log]; [| |exact I].
+        + split; [exists (inl r); reflexivity|]. intros inner backup Hi _.
+          injection Hi as Hi. apply of_sum_ok in Hi. rewrite (ok_passthrough _ _ _ _ _ _ Hi). split; reflexivity.
+        + fold (handles pred e). destruct (handles pred e) eqn:Hp; cbn [negb].
+          * destruct st eqn:Est; cbn [fst snd c_req c_phase c_inner c_backup c_log];
+              try (split; [exists (inr e); reflexivity|]; intros inner backup Hi _;
+                   injection Hi as Hi; apply of_sum_err in Hi;
+                   rewrite (strategy_exact _ _ _ _ _ _ Hi Hp); unfold spec_out, spec_log; cbn [out fn_log app];
+                   rewrite ?app_nil_r; split; reflexivity).
+            exists e. repeat split. exact Hp.
+          * cbn [fst snd c_req c_phase c_inner c_backup c_log].
+            split; [exists (inr e); reflexivity|]. intros inner backup Hi _.
+            injection Hi as Hi. apply of_sum_err in Hi.
+            rewrite (predicate_gate _ _ _ _ _ _ Hi Hp). split; reflexivity.
+      - intros H. rewrite app_nil_r. exact H.
+      - intros (e & Hi & Hp & Hs & Hb & Hl). subst ci cb lg.
+        destruct o as [r|be|]; cbn [fst snd c_req c_phase c_inner c_backup c_log]; [| |exact I]; rewrite app_nil_r;
+          (split; [exists (inr e); reflexivity|]); intros inner backup Hi Hb;
+          injection Hi as Hi; apply of_sum_err in Hi; specialize (Hb _ eq_refl).
+        + apply of_sum_ok in Hb. rewrite (strategy_exact _ _ _ _ _ _ Hi Hp).
+          unfold spec_out, spec_log. rewrite Hs. cbn [out fn_log]. rewrite Hb. split; reflexivity.
+        + apply of_sum_err in Hb. rewrite (strategy_exact _ _ _ _ _ _ Hi Hp).
+          unfold spec_out, spec_log. rewrite Hs. cbn [out fn_log]. rewrite Hb. split; reflexivity.
+      - intros H. rewrite app_nil_r. exact H.
+      - intros _. exact I.
+      - intros _. exact I.
+    Qed.
+
+    Lemma step_preserves s o :
+      Forall cinv (m_calls s) -> Forall cinv (m_calls (step st pred s o)).
+    Proof.
+      intros H. destruct o as [req|k|k o|k o|k|e|]; cbn [step].
+      - cbn. apply Forall_app. split; [exact H|]. constructor; [|constructor].
+        unfold cinv. cbn. repeat split.
+      - destruct (nth_error (m_calls s) k) as [c|] eqn:E; [|exact H].
+        destruct (alive c); [|exact H].
+        destruct (poll_call st pred c) as [p es] eqn:Ep. cbn.
+        apply Forall_upd; [exact H|]. intros c' Hc' Hinv. rewrite E in Hc'. injection Hc' as <-.
+        pose proof (poll_preserves c Hinv) as Hp. rewrite Ep in Hp. exact Hp.
+      - destruct (nth_error (m_calls s) k) as [c|] eqn:E; [|exact H].
+        destruct (c_phase c) eqn:Ph; try exact H. cbn.
+        apply Forall_upd; [exact H|]. intros c' Hc' Hinv. rewrite E in Hc'. injection Hc' as <-.
+        unfold cinv in *. rewrite Ph in Hinv. cbn. destruct Hinv as (A & B & C). repeat split; assumption.
+      - destruct (nth_error (m_calls s) k) as [c|] eqn:E; [|exact H].
+        destruct (c_phase c) eqn:Ph; try exact H. cbn.
+        apply Forall_upd; [exact H|]. intros c' Hc' Hinv. rewrite E in Hc'. injection Hc' as <-.
+        unfold cinv in *. rewrite Ph in Hinv. cbn. destruct Hinv as (e & A & B & C & D & F).
+        exists e. repeat split; assumption.
+      - destruct (nth_error (m_calls s) k) as [c|] eqn:E; [|exact H].
+        destruct (alive c); [|exact H]. cbn.
+        apply Forall_upd; [exact H|]. intros c' _ _. unfold cinv, set_phase. cbn. exact I.
+      - exact H.
+      - exact H.
+    Qed.
+
+    Lemma machine_invariant ops : Forall cinv (m_calls (run_ops st pred ops)).
+    Proof.
+      unfold run_ops. apply fold_left_inv; [constructor|]. intros s o. apply step_preserves.
+    Qed.
+
+    (* REFINEMENT: a call of the machine that has completed returned exactly what the pure
+       function [call] specifies for that call's own request and the outcomes delivered to that
+       call, and invoked exactly what [call] logs, in that order — whatever the other calls
+       through the same service value and its clones did in between *)
+    Lemma machine_refines_call ops k c r :
+      nth_error (m_calls (run_ops st pred ops)) k = Some c -> c_phase c = PDone r ->
+      (exists x, c_inner c = Some (of_sum x)) /\
+      forall inner backup,
+        c_inner c = Some (of_sum (inner (c_req c))) ->
+        (forall o, c_backup c = Some o -> o = of_sum (backup (c_req c))) ->
+        r = out (call st pred inner backup (c_req c)) /\
+        c_log c = fn_log (call st pred inner backup (c_req c)).
+    Proof.
+      intros Hn Hp. pose proof (machine_invariant ops) as Hinv.
+      rewrite Forall_forall in Hinv. specialize (Hinv c (nth_error_In _ _ Hn)).
+      unfold cinv in Hinv. rewrite Hp in Hinv. exact Hinv.
+    Qed.
+
+    (* whatever the phase (also for futures that were dropped or that panicked): anything beyond the
+       inner call is only ever invoked after an inner ERROR was delivered to that very call; in
+       particular a success invokes neither the predicate nor a strategy closure, and nothing of
+       the fallback is evaluated ahead of (or while waiting for) the inner call *)
+    Definition linv (c : callst Req Res Err) : Prop :=
+      c_log c = [] \/ c_log c = [EInner (c_req c)] \/
+      exists e rest, c_inner c = Some (OErr e) /\ c_log c = EInner (c_req c) :: rest.
+
+    Lemma Forall_upd2 {A} (P Q : A -> Prop) k (f : A -> A) (l : list A) :
+      Forall P l -> Forall Q l -> (forall c, nth_error l k = Some c -> P c -> Q c -> Q (f c)) ->
+      Forall Q (upd k f l).
+    Proof.
+      revert k. induction l as [|x t IH]; intros [|k] HP HQ Hf; cbn; inversion HP; inversion HQ; subst;
+        constructor; auto.
+      all: try (apply Hf; [reflexivity|assumption|assumption]).
+    Qed.
+
+    Lemma poll_preserves_linv c :
+      cinv c -> linv c -> linv (set_phase (fst (poll_call st pred c)) (snd (poll_call st pred c)) c).
+    Proof.
+      unfold cinv, linv, poll_call, set_phase. destruct c as [req ph ci cb lg].
+      cbn [c_req c_phase c_inner c_backup c_log].
+      destruct ph as [| |o| |o|r| |]; cbn [fst snd]; intros Hc Hl; rewrite ?app_nil_r; try exact Hl.
+      - destruct Hc as (-> & _). right. left. reflexivity.
+      - destruct Hc as (-> & -> & _). destruct o as [r|e|]; cbn [fst snd]; rewrite ?app_nil_r;
+          [right; left; reflexivity| |right; left; reflexivity].
+        right. right. exists e. eexists. split; [reflexivity|]. cbn [app]. reflexivity.
+      - destruct o; cbn [fst snd]; rewrite ?app_nil_r; exact Hl.
+    Qed.
+
+    Lemma step_preserves_linv s o :
+      Forall cinv (m_calls s) -> Forall linv (m_calls s) -> Forall linv (m_calls (step st pred s o)).
+    Proof.
+      intros Hc H. destruct o as [req|k|k o|k o|k|e|]; cbn [step].
+      - cbn. apply Forall_app. split; [exact H|]. constructor; [|constructor]. left. reflexivity.
+      - destruct (nth_error (m_calls s) k) as [c|] eqn:E; [|exact H].
+        destruct (alive c); [|exact H].
+        destruct (poll_call st pred c) as [p es] eqn:Ep. cbn.
+        apply (Forall_upd2 cinv); [exact Hc|exact H|]. intros c' Hc' Hinv Hl. rewrite E in Hc'. injection Hc' as <-.
+        pose proof (poll_preserves_linv c Hinv Hl) as Hp. rewrite Ep in Hp. exact Hp.
+      - destruct (nth_error (m_calls s) k) as [c|] eqn:E; [|exact H].
+        destruct (c_phase c) eqn:Ph; try exact H. cbn.
+        apply (Forall_upd2 cinv); [exact Hc|exact H|]. intros c' Hc' Hinv _. rewrite E in Hc'. injection Hc' as <-.
+        unfold cinv in Hinv. rewrite Ph in Hinv. destruct Hinv as (A & _). unfold linv. cbn. right. left. exact A.
+      - destruct (nth_error (m_calls s) k) as [c|] eqn:E; [|exact H].
+        destruct (c_phase c) eqn:Ph; try exact H. cbn.
+        apply (Forall_upd2 cinv); [exact Hc|exact H|]. intros c' _ _ Hl. unfold linv in *. cbn. exact Hl.
+      - destruct (nth_error (m_calls s) k) as [c|] eqn:E; [|exact H].
+        destruct (alive c); [|exact H]. cbn.
+        apply (Forall_upd2 cinv); [exact Hc|exact H|]. intros c' _ _ Hl. unfold linv, set_phase in *. cbn.
+        rewrite app_nil_r. exact Hl.
+      - exact H.
+      - exact H.
+    Qed.
+
+    Lemma machine_fallback_only_after_inner_error ops k c :
+      nth_error (m_calls (run_ops st pred ops)) k = Some c ->
+      c_log c = [] \/ c_log c = [EInner (c_req c)] \/
+      exists e rest, c_inner c = Some (OErr e) /\ c_log c = EInner (c_req c) :: rest.
+    Proof.
+      intros Hn.
+      assert (H : Forall cinv (m_calls (run_ops st pred ops)) /\ Forall linv (m_calls (run_ops st pred ops))).
+      { unfold run_ops. apply (fold_left_inv (step st pred)
+          (fun s => Forall cinv (m_calls s) /\ Forall linv (m_calls s))).
+        - split; constructor.
+        - intros s o [A B]. split; [apply step_preserves; exact A|apply step_preserves_linv; assumption]. }
+      destruct H as [_ H]. rewrite Forall_forall in H. exact (H c (nth_error_In _ _ Hn)).
+    Qed.
+
+    (* the delivered inner outcome is set once, when the inner service answers, never changed *)
+    Lemma machine_success_invokes_nothing ops k c r :
+      nth_error (m_calls (run_ops st pred ops)) k = Some c -> c_inner c = Some (OOk r) ->
+      c_log c = [] \/ c_log c = [EInner (c_req c)].
+    Proof.
+      intros Hn Hi. destruct (machine_fallback_only_after_inner_error ops k c Hn) as [H|[H|(e & rest & He & _)]];
+        [left; exact H|right; exact H|congruence].
+    Qed.
+
+    (* a failed poll_ready is reported as Inner(e); it involves no call, no predicate, no strategy *)
+    Lemma readiness_error_not_handled s e :
+      m_calls (step st pred s (OpReadyFail e)) = m_calls s /\
+      m_events (step st pred s (OpReadyFail e)) = m_events s /\
+      m_ready (step st pred s (OpReadyFail e)) = m_ready s ++ [Inner e].
+    Proof. repeat split. Qed.
+
+    (* ---- the global event log of the trace projects to the per-call logs ---- *)
+    Definition proj (k : nat) (evs : list (nat * event Req Err)) : list (event Req Err) :=
+      map snd (filter (fun ke => Nat.eqb (fst ke) k) evs).
+
+    Lemma proj_app k a b : proj k (a ++ b) = proj k a ++ proj k b.
+    Proof. unfold proj. rewrite filter_app, map_app. reflexivity. Qed.
+
+    Lemma proj_tag k k' es : proj k (map (fun e => (k', e)) es) = if Nat.eqb k' k then es else [].
+    Proof.
+      unfold proj. induction es as [|e es IH]; cbn [map filter fst]; [destruct (Nat.eqb k' k); reflexivity|].
+      destruct (Nat.eqb k' k) eqn:E; cbn [map snd]; rewrite IH; reflexivity.
+    Qed.
+
+    Definition ginv (s : mstate Req Res Err) : Prop :=
+      forall k, proj k (m_events s) = match nth_error (m_calls s) k with Some c => c_log c | None => [] end.
+
+    Lemma ginv_upd s k0 (f : callst Req Res Err -> callst Req Res Err) es c0 :
+      ginv s -> nth_error (m_calls s) k0 = Some c0 -> c_log (f c0) = c_log c0 ++ es ->
+      ginv (with_calls (upd k0 f (m_calls s)) (map (fun e => (k0, e)) es) s).
+    Proof.
+      intros G E Hl k. cbn [with_calls m_events m_calls]. rewrite proj_app, proj_tag, G.
+      destruct (Nat.eqb_spec k0 k) as [<-|Hne].
+      - rewrite (nth_error_upd_same _ _ _ _ E), E. symmetry. exact Hl.
+      - rewrite (nth_error_upd_other _ _ _ _ Hne). rewrite app_nil_r. reflexivity.
+    Qed.
+
+    Lemma flag_ginv b s : ginv s -> ginv (flag b s).
+    Proof. intros G. exact G. Qed.
+
+    Lemma step_ginv s o : ginv s -> ginv (step st pred s o).
+    Proof.
+      intros G. destruct o as [req|k|k o|k o|k|e|]; cbn [step]; try (apply flag_ginv).
+      - intros k. cbn [with_calls m_events m_calls]. rewrite app_nil_r, G.
+        destruct (Nat.lt_ge_cases k (length (m_calls s))) as [L|L].
+        + rewrite nth_error_app1 by exact L. reflexivity.
+        + rewrite nth_error_app2 by exact L.
+          replace (nth_error (m_calls s) k) with (@None (callst Req Res Err)) by (symmetry; apply nth_error_None; exact L).
+          destruct (k - length (m_calls s))%nat as [|[|n]]; reflexivity.
+      - destruct (nth_error (m_calls s) k) as [c|] eqn:E; [|apply flag_ginv; exact G].
+        destruct (alive c); [|apply flag_ginv; exact G].
+        destruct (poll_call st pred c) as [p es]. apply flag_ginv.
+        apply (ginv_upd s k _ es c G E). reflexivity.
+      - destruct (nth_error (m_calls s) k) as [c|] eqn:E; [|apply flag_ginv; exact G].
+        destruct (c_phase c); try (apply flag_ginv; exact G). apply flag_ginv.
+        apply (ginv_upd s k _ [] c G E). cbn. rewrite app_nil_r. reflexivity.
+      - destruct (nth_error (m_calls s) k) as [c|] eqn:E; [|apply flag_ginv; exact G].
+        destruct (c_phase c); try (apply flag_ginv; exact G). apply flag_ginv.
+        apply (ginv_upd s k _ [] c G E). cbn. rewrite app_nil_r. reflexivity.
+      - destruct (nth_error (m_calls s) k) as [c|] eqn:E; [|apply flag_ginv; exact G].
+        destruct (alive c); [|apply flag_ginv; exact G]. apply flag_ginv.
+        apply (ginv_upd s k _ [] c G E). reflexivity.
+      - exact G.
+      - exact G.
+    Qed.
+
+    Lemma events_project ops k :
+      proj k (m_events (run_ops st pred ops)) =
+      match nth_error (m_calls (run_ops st pred ops)) k with Some c => c_log c | None => [] end.
+    Proof.
+      revert k. change (ginv (run_ops st pred ops)). unfold run_ops. apply fold_left_inv.
+      - intros k. destruct k; reflexivity.
+      - intros s o. apply step_ginv.
+    Qed.
+
+    (* an operation aimed at call k leaves every other call as it was *)
+    Definition target (o : op Req Res Err) : option nat :=
+      match o with
+      | OpPoll k | OpInnerDone k _ | OpBackupDone k _ | OpDrop k => Some k
+      | _ => None
+      end.
+
+    Lemma calls_independent s o k c :
+      nth_error (m_calls s) k = Some c -> target o <> Some k ->
+      nth_error (m_calls (step st pred s o)) k = Some c.
+    Proof.
+      intros Hn Ht. destruct o as [req|k0|k0 o|k0 o|k0|e|]; cbn [step target] in *.
+      - cbn. rewrite nth_error_app1; [exact Hn|]. apply nth_error_Some. congruence.
+      - destruct (nth_error (m_calls s) k0) as [c0|]; [|exact Hn]. destruct (alive c0); [|exact Hn].
+        destruct (poll_call st pred c0). cbn. rewrite nth_error_upd_other; [exact Hn|congruence].
+      - destruct (nth_error (m_calls s) k0) as [c0|]; [|exact Hn]. destruct (c_phase c0); try exact Hn.
+        cbn. rewrite nth_error_upd_other; [exact Hn|congruence].
+      - destruct (nth_error (m_calls s) k0) as [c0|]; [|exact Hn]. destruct (c_phase c0); try exact Hn.
+        cbn. rewrite nth_error_upd_other; [exact Hn|congruence].
+      - destruct (nth_error (m_calls s) k0) as [c0|]; [|exact Hn]. destruct (alive c0); [|exact Hn].
+        cbn. rewrite nth_error_upd_other; [exact Hn|congruence].
+      - exact Hn.
+      - exact Hn.
+    Qed.
+  End Machine.
 End P.
 
-(* non-vacuity: a concrete configuration on which each branch is exercised *)
+(* non-vacuity: concrete scripts through run_script *)
 Example ex_service_fails :
-  run_script [4; 1; 9; 5; 1; 8; 1; 77] = [1; 5; 1; 5; 2; 77].
+  run_script [4; 1; 9; 5; 1; 8; 1; 77] =
+  [1; 2; 77; 0; 6; 1; 1; 1; 1; 1; 1; 3; 0; 0; 5; 0; 0; 1; 8; 0; 0; 5; 5; 0].
 Proof. vm_compute. reflexivity. Qed.
 Example ex_pred_refuses :
-  run_script [0; 1; 9; 5; 1; 7; 0; 0] = [1; 5; 0; -1; 1; 7].
+  run_script [0; 1; 9; 5; 1; 7; 0; 0] = [1; 1; 7; 0; 6; 1; 1; 1; 1; 0; 0; 2; 0; 0; 5; 0; 0; 1; 7; 0].
 Proof. vm_compute. reflexivity. Qed.
+(* two overlapping calls through one service (from_request_error), answered in reverse order: each
+   call gets its own request; a third call succeeds and invokes nothing *)
+Example ex_overlapping :
+  run_script [3; 0; 9; 0; 0; 0; 0; 0;  1; 0; 5;  1; 1; 6;  2; 0; 0;  2; 1; 0;  3; 1; 41;  3; 0; 29;  2; 1; 0;  2; 0; 0;
+              1; 2; 8;  2; 2; 0;  3; 2; 400;  2; 2; 0] =
+  [3; 0; 2192; 0; 2232; 0; 100;  0;  12; 1; 1; 1; 1; 1; 1; 1; 1; 1; 1; 1; 1;
+   5; 0; 0; 5; 0;  1; 0; 6; 0;  1; 4; 6; 10;  0; 4; 5; 7;  2; 0; 8; 0].
+Proof. vm_compute. reflexivity. Qed.
+(* a completed call in a reachable state (hypotheses of machine_refines_call are satisfiable) *)
+Example ex_done :
+  exists c r, nth_error (m_calls (run_ops (strategy_of [2]) (pred_of 1) (ops_of [2; 1; 9; 5; 1; 8; 0; 0]))) 0 = Some c /\
+              c_phase c = PDone r /\ c_inner c = Some (OErr 8).
+Proof. eexists. eexists. vm_compute. repeat split. Qed.
